@@ -1026,6 +1026,114 @@ def replay_eq(a):
     return a.replay_cases(exe, data, cases, prefix="let w = 1\n")
 
 
+def in_operation(a):
+    """InOperation::compare: every membership test has a left-hand value on the left and a right-hand value on the right"""
+    derived = {}
+
+    def m_is_literal(ex, av):
+        o = ex.fresh_enum("Option", 2, "lit", {"Some": ex.opq()})
+        derived[o[3]["Some"][1]] = av[0][1] if av and av[0][0] == "opaque" else None
+        return o
+
+    def m_selected(ex, av):
+        o = ex.opq()
+        derived[o[1]] = av[0][1] if av and av[0][0] == "opaque" else None
+        return o
+    names = ("contained_in", "string_in")
+    fn_texts = [(OPS_IMPL, r"_1: &(?:operators::)?InOperation")]
+    # the per-element work of the (query, literal) and (literal, query) cases lives in closures of this function
+    for m in re.finditer(r"^fn ((?:rules::eval::)?operators::<impl at guard/src/rules/eval/operators\.rs:(\d+):\d+: \d+:\d+>::compare::\{closure#\d+\})\(", a.mir, re.M):
+        fn_texts.append((re.escape(m.group(1)), ""))
+    impl_line = None
+    t0 = mirsmt.find_fn(a.mir, OPS_IMPL, r"_1: &(?:operators::)?InOperation")
+    mm = re.search(r"operators\.rs:(\d+):", t0.splitlines()[0])
+    impl_line = mm.group(1) if mm else None
+    total, nfn = 0, 0
+    for fre, a1 in fn_texts:
+        if a1 == "" and impl_line and f"operators\\.rs:{impl_line}:" not in fre and f"operators.rs:{impl_line}:" not in fre.replace("\\", ""):
+            continue
+        try:
+            ex = a.exec(fre, {"is_literal": m_is_literal, "selected": m_selected, "contained_in": lambda ex, av: ex.opq(),
+                              "string_in": lambda ex, av: ex.opq(), "fail": lambda ex, av: ex.opq(), "next": mirexec.m_iter_next,
+                              "into_iter": mirexec.m_new_iter, "iter": mirexec.m_new_iter, "re:Rc::<.*>::new$": mirexec.m_identity,
+                              "with_capacity": lambda ex, av: ex.opq(), "collect": lambda ex, av: ex.opq(), "any": lambda ex, av: ("bool", ex.fresh("Bool", "any")),
+                              "cloned": mirexec.m_identity},
+                        log=("push",), unroll=1, max_paths=60000, first_arg_re=a1)
+        except Untranslatable:
+            continue
+        nfn += 1
+        is_closure = "closure" in fre
+        envv, elem, cap_names = None, None, {}
+        if is_closure:
+            envv, elem = ex.arg_env.get("_1"), ex.arg_env.get("_2")
+            for dm in re.finditer(r"debug (\w+) => \(\*\(?\(?\*?_1\)?\.(\d+):", mirsmt.find_fn(a.mir, fre, a1)):
+                cap_names[dm.group(2)] = dm.group(1)
+        lhs, rhs = (ex.arg_env.get("_2"), ex.arg_env.get("_3")) if not is_closure else (None, None)
+        rev = {}
+        for k, v in ex.proj.items():
+            if isinstance(k, tuple) and len(k) == 2 and isinstance(k[0], int) and isinstance(v, tuple) and v and v[0] == "opaque":
+                rev.setdefault(v[1], k[0])
+
+        def side(v):
+            i, seen = (v[1] if v and v[0] == "opaque" else None), 0
+            while i is not None and seen < 60:
+                if lhs is not None and i == lhs[1]:
+                    return "L"
+                if rhs is not None and i == rhs[1]:
+                    return "R"
+                i = rev.get(i, derived.get(i))
+                seen += 1
+            return None
+        bad = []
+        for p in ex.paths:
+            if p.outcome == "panic":
+                bad.append(pc_term(p.pc))
+                continue
+            probs = []
+            tests = [e for e in p.events if e[0] == "call" and e[1] in names]
+            total += len(tests)
+            for e in tests:
+                if len(e[2]) != 2:
+                    probs.append("arity")
+                    continue
+                if not is_closure:
+                    if side(e[2][0]) != "L" or side(e[2][1]) != "R":
+                        probs.append("a membership test does not have (left value, right value)")
+                else:
+                    # in a closure: operands come from the handed-in element (_2) and / or captured variables; a captured
+                    # variable whose name starts with l / lhs must be the first operand, one starting with r / rhs the second
+                    def origin(v):
+                        i, seen, child = (v[1] if v and v[0] == "opaque" else None), 0, None
+                        while i is not None and seen < 60:
+                            if elem is not None and elem[0] == "opaque" and i == elem[1]:
+                                return "elem"
+                            if envv is not None and envv[0] == "opaque" and i == envv[1]:
+                                for kk, vv in ex.proj.items():
+                                    if isinstance(kk, tuple) and kk[0] == envv[1] and isinstance(vv, tuple) and vv and vv[0] == "opaque" and vv[1] == child:
+                                        return "cap:" + cap_names.get(kk[1].lstrip("."), kk[1])
+                                return "cap:?"
+                            child = i
+                            i = rev.get(i)
+                            seen += 1
+                        return None
+                    o0, o1 = origin(e[2][0]), origin(e[2][1])
+                    if o0 is None or o1 is None or o0 == o1:
+                        probs.append("a membership test in a closure does not pair two different operands")
+                    if (o0 or "").startswith(("cap:r", "cap:rhs")) or (o1 or "").startswith(("cap:l", "cap:lhs")):
+                        probs.append("a membership test in a closure has the right operand on the left")
+            bad.append(pc_term(p.pc) if probs else "false")
+        short = ("closure-" + "-".join(re.findall(r"closure\\#(\d+)", fre))) if is_closure else "body"
+        c = a.discharge(f"operators::InOperation::compare/roles/{short}", ex, bad,
+                        "`in`: every membership test (contained_in / string_in) pairs a value of the left operand set (first argument) "
+                        "with a value of the right operand set (second argument); in the per-element closures the handed-in element is "
+                        "paired with the captured literal", witness=False)
+        if c:
+            c["replay"] = replay_in(a)
+            c["reproduced"] = c["replay"].get("reproduced", False)
+            a.candidates.append(c)
+    a.fns.append(f"rules::eval::operators::<InOperation as Comparator>::compare (+ {nfn - 1} closures; {total} membership tests over all paths)")
+
+
 def same_v(x, y):
     return x is not None and y is not None and x == y
 
@@ -1209,9 +1317,9 @@ def replay_elementwise(a):
 
 
 SITES = {
-    "C01": [guard_block, type_block, binary_operation, operator_dispatch, match_value, common_operator, contained_in],
+    "C01": [guard_block, type_block, binary_operation, operator_dispatch, match_value, common_operator, contained_in, eq_operation, in_operation],
     "C02": [guard_block, type_block, record_tracker],
     "C03": [flip_closure, negated_compare_wrapper],
-    "C13": [flip_closure, operator_dispatch, binary_operation, match_value, common_operator, contained_in, eq_operation],
+    "C13": [flip_closure, operator_dispatch, binary_operation, match_value, common_operator, contained_in, eq_operation, in_operation],
     "C18": [function_dispatch, elementwise],
 }
